@@ -482,6 +482,7 @@ func Generate(seed uint64, opt GenOptions) *Scenario {
 			}
 			if opt.Property == "C20" && !op.IsExec() {
 				op.Kind = "query"
+				op.Path, op.Path2 = op.Path%nValid, 0
 			}
 			if op.IsExec() {
 				if len(sc.Vars) > 0 && g.chance(0.7) {
